@@ -716,7 +716,7 @@ func init() {
 	core.Register(&core.Check{
 		ID:    "C18",
 		Level: "exploration",
-		Rule:  "JSON-expressible documents (every dict/list shape of depth<=2 over keys {a,b} with lists<=2, leaves assigned cyclically from 31 values: null, booleans, integers incl. 2^53+1 and 2^64-1, floats, and strings that look like other YAML/HJSON/ucfg syntax - '1', 'true', 'null', 'a: b', '#x', '${x}', 'a.b', 'x,y', '[1]', quotes, leading blank, multi-line, non-ASCII) serialised with encoding/json and loaded by yaml.NewConfig, json.NewConfig and hjson.NewConfig under {no options, PathSep, PathSep+VarExp}; per front-end the unpacked data must equal what the front-end's own decoder yields; where the three decoders agree the three configs must unpack to the same generic data (including which keys are present with a null value) and typed data (three StructOf mirrors: numbers as uint64/float64, numbers as time.Duration, every scalar as text); NewConfigWithFile must give the same data and errors must mention source:'<file>'; 8 documents with dotted keys of up to 4 segments (implicit sections, also inside lists and nested objects) loaded from files with PathSep: reading any implicit section as an int fails naming the section and the file, with the same text as the in-memory loader otherwise; 16 inputs without settings (empty, blank, comments only, {}, [], null, document markers) through NewConfig and NewConfigWithFile of each front-end: same verdict, same data, target defaults kept; non-trivial = the document is valid and decoded identically by all three",
+		Rule:  "JSON-expressible documents (every dict/list shape of depth<=2 over keys {a,b} with lists<=2, leaves assigned cyclically from 31 values: null, booleans, integers incl. 2^53+1 and 2^64-1, floats, and strings that look like other YAML/HJSON/ucfg syntax - '1', 'true', 'null', 'a: b', '#x', '${x}', 'a.b', 'x,y', '[1]', quotes, leading blank, multi-line, non-ASCII) serialised with encoding/json and loaded by yaml.NewConfig, json.NewConfig and hjson.NewConfig under {no options, PathSep, PathSep+VarExp}; per front-end the unpacked data must equal what the front-end's own decoder yields; where the three decoders agree the three configs must unpack to the same generic data (including which keys are present with a null value) and typed data (three StructOf mirrors: numbers as uint64/float64, numbers as time.Duration, every scalar as text); NewConfigWithFile must give the same data and errors must mention source:'<file>'; 8 documents with dotted keys of up to 4 segments (implicit sections, also inside lists and nested objects) loaded from files with PathSep: reading any implicit section as an int fails naming the section and the file, with the same text as the in-memory loader otherwise; 16 inputs without settings (empty, blank, comments only, {}, [], null, document markers) through NewConfig and NewConfigWithFile of each front-end: same verdict, same data, target defaults kept; non-trivial = the document is valid and decoded identically by all three; where the three decoders differ (integers beyond 2^53) every config is compared with the document itself, numbers by value",
 		Assumptions: []string{
 			"third-party decoders are trusted and compared with themselves (their quirks are not attributed to ucfg); documents on which they disagree are only checked per front-end",
 			"documents containing ${ are skipped under VarExp (the reference would be unresolvable)",
